@@ -194,6 +194,17 @@ CHECKS = {
              "lathes) is built, its positions clustered into classes, and TLC judges its faces and flags.",
         design="DESIGN.md §5 C15",
         note=TRUST + "; clustering and geometric flag computation in harness/src/mesh.rs (f64)"),
+    "C08": dict(
+        technique="TLA+ spec Proj: view volumes, pinhole images, depth bounds/order, viewport and Rect algebra, camera "
+                  "confinement and rigid first-person transforms as exact integer/rational geometry (no matrix formulas); TLC "
+                  "checks that the relation accepts the textbook matrix and rejects broken ones on a lattice; trace validation",
+        text="TLC checks on a lattice that the geometric relation accepts the exact textbook perspective matrix and rejects "
+             "it with an inverted aspect or swapped depth; the real perspective / orthographic / viewport matrices, "
+             "Rect::intersect, Camera (dims, corner mapping, pinhole pixel, confinement of drawing to requested /\\ frame) and "
+             "FirstPerson (rigidity, position to origin, target onto +z, translation along right/up/horizontal forward for "
+             "headings incl. the poles) are swept over lattice parameters and judged by TLC.",
+        design="DESIGN.md §5 C08",
+        note=TRUST + "; std atan2 names the first-person azimuths"),
 }
 
 NOT_YET = "check not built yet in this round (see DESIGN.md §9 for the order of work)"
